@@ -56,6 +56,8 @@ def run(ctx: Ctx, rep: Report) -> None:
     reg_functions(ctx, rep)
     reg_rules(ctx, rep)
     flow(ctx, rep)
+    from .qasm_regs import regoff
+    regoff(ctx, rep)
 
 
 # ---------------------------------------------------------------------------
